@@ -227,8 +227,8 @@ PROPS["C01"] = {
     "note": "Trusted: go/ssa, the executor, z3, the decimal contract model. Outside (most of the property): field/declaration permutation in structs, file order, structure sharing, closedness, cycles, disjunction order - anything that needs struct values or references.",
     "technique": "bounded symbolic execution of adt.Vertex.Finalize (the real scheduler and conjunct insertion) on permuted/duplicated symbolic scalar conjuncts; outcomes compared by z3",
     "bounds": {
-        "quick": "conjunct pairs over strings/bytes (<= 1 byte) with types and bounds, probe <= 2 bytes: orders (c1,c2,p), (p,c2,c1), (c1,p,c2,c1,top); arc types: all values; default modes: all values",
-        "thorough": "conjunct pairs over the full scalar domain (null, bool, numbers, strings, bytes; all basic types; all bounds)",
+        "quick": "conjunct pairs over strings/bytes (<= 1 byte) with types and bounds, probe <= 2 bytes: orders (c1,c2,p), (p,c2,c1), (c1,p,c2,c1,top); triples int & c2 & c3 with c2,c3 a number type or a bound (< <= > >= !=) on a one-digit int or one-digit half-unit float (d*10^-1), in 3 orders (identity, reversed, rotated); arc types: all values; default modes: all values",
+        "thorough": "conjunct pairs over the full scalar domain (null, bool, numbers, strings, bytes; all basic types; all bounds); triples with all three conjuncts arbitrary (type or bound) in 3 orders",
     },
     "outside": ["structs, lists, references, comprehensions, disjunctions, closedness, cycles, files"],
     "assumptions": APD_ASSUMPTIONS,
@@ -245,8 +245,10 @@ PROPS["C01"] = {
             "harness": ["adt/common.go", "adt/validate.go", "adt/unify.go"],
             "apdmodel": True,
             "entries": {
-                "quick": [{"name": "verifHarnessUnifyExact", "params": {"DOMAIN": 1, "DIGITS": 1, "EXP": 0, "STRLEN": 1, "NCONJ": 2}}],
-                "thorough": [{"name": "verifHarnessUnifyExact", "params": {"DOMAIN": 2, "DIGITS": 1, "EXP": 0, "STRLEN": 1, "NCONJ": 2}}],
+                "quick": [{"name": "verifHarnessUnifyExact", "params": {"DOMAIN": 1, "DIGITS": 1, "EXP": 0, "STRLEN": 1, "NCONJ": 2}},
+                          {"name": "verifHarnessUnifyOrder3", "params": {"DIGITS": 1, "EXP": 1, "PERMS": 3, "FIRSTINT": 1}}],
+                "thorough": [{"name": "verifHarnessUnifyExact", "params": {"DOMAIN": 2, "DIGITS": 1, "EXP": 0, "STRLEN": 1, "NCONJ": 2}},
+                             {"name": "verifHarnessUnifyOrder3", "params": {"DIGITS": 1, "EXP": 1, "PERMS": 3}}],
             },
         },
     ],
@@ -383,25 +385,28 @@ PROPS["C18"] = {
     "note": "Trusted: go/ssa, the executor and its cooperative goroutine/channel model (a goroutine runs to completion when the controller blocks on its select; which one is an explored choice - exact for the controller's goroutines, whose only interaction is the final send on taskCh), context never cancelled, CUE_EXPERIMENT/CUE_DEBUG unset. Counterexamples of this check are replayed in the executor with all choices fixed (native replay cannot force a goroutine schedule). Outside: cancellation, services/deferred tasks, UpdateFunc, tasks appearing during the run, data races.",
     "technique": "exhaustive symbolic-execution exploration of schedule, outcome and relation choice variables over the real tools/flow code and the real evaluator (CUE source generated per path, parsed, compiled and evaluated inside the executor)",
     "bounds": {
-        "quick": "N = 3 tasks: every acyclic reference relation (task j may reference any i < j) x every failure pattern x every completion order; every relation with cycles over 3 tasks (64 relations)",
+        "quick": "N = 3 tasks: every acyclic reference relation (task j may reference any i < j) x every failure pattern x every completion order; every relation with cycles over 3 tasks (64 relations; a cycle must be detected by flow.New and then nothing runs); one workflow with a task generated during the run by a comprehension, both completion orders",
         "thorough": "N = 4 tasks (64 acyclic relations x 16 failure patterns x all orders; 4096 arbitrary relations)",
     },
-    "outside": ["context cancellation", "services, deferred and inferred tasks", "UpdateFunc", "real goroutine preemption / data races"],
+    "outside": ["context cancellation", "services, deferred and inferred tasks", "UpdateFunc", "real goroutine preemption / data races", "tasks appearing during the run beyond the one late-task template"],
     "assumptions": ["context.WithCancel/Background replaced by a never-cancelled context", "task results are written to Task.update directly (Task.Fill's Go-value conversion uses reflection)"],
     "runs": [
         {
             "pkg": "./tools/flow",
             "harness": ["flow/run.go"],
+            "apdmodel": True,
             "native_replay": False,
             "fuel": 50000000,
             "entries": {
                 "quick": [
                     {"name": "verifHarnessFlowAcyclic", "params": {"N": 3}},
                     {"name": "verifHarnessFlowCycles", "params": {"N": 3}},
+                    "verifHarnessFlowLateTask",
                 ],
                 "thorough": [
                     {"name": "verifHarnessFlowAcyclic", "params": {"N": 4}},
                     {"name": "verifHarnessFlowCycles", "params": {"N": 4}},
+                    "verifHarnessFlowLateTask",
                 ],
             },
         },
@@ -466,7 +471,7 @@ PROPS["C07"] = {
     "note": "Trusted: go/ssa, the executor, z3, the decimal contract model; exporter.expr for a bound leaf is stubbed by an opaque literal naming the bound. Outside: value.go/expr.go/adt.go/self.go (struct, reference, let, import printing), option profiles, the formatter, number formatting - i.e. 'the printed text parses and evaluates to the same value' as a whole is not claimed.",
     "technique": "bounded symbolic execution of export.boundSimplifier, adt.MatchBuiltinRange, compile.LookupRange/mkIntRange, ast.NewStringLabel/LabelName from go/ssa; denotational equality for an arbitrary probe decided by z3",
     "bounds": {
-        "quick": "bound simplifier: every sequence of 2 conjuncts from {int type, bound with op in < <= > >= != on an int or float operand, |coefficient| < 100, exponent in [-1,1]}; ranges: all 10 sized integer types and all perturbations of their bounds by -2..2 with/without the int type; labels: valid UTF-8 strings <= 3 bytes",
+        "quick": "bound simplifier: every sequence of 2 conjuncts from {int type, bound with op in < <= > >= != on an int or float operand, |coefficient| < 100, exponent in [-1,1]}, plus every such sequence with the int type added first or last (INT=1); ranges: all 10 sized integer types and all perturbations of their bounds by -2..2 with/without the int type; labels: valid UTF-8 strings <= 3 bytes",
         "thorough": "3 conjuncts; labels <= 4 bytes",
     },
     "outside": ["struct/reference/let/import printing", "formatter", "number text"],
@@ -479,8 +484,10 @@ PROPS["C07"] = {
             "native_replay": False,  # exporter.expr is stubbed: counterexamples are confirmed by the engine-concrete replay
             "apdmodel": True,
             "entries": {
-                "quick": [{"name": "verifHarnessBoundSimplifier", "params": {"DIGITS": 2, "EXP": 1, "K": 2}}],
-                "thorough": [{"name": "verifHarnessBoundSimplifier", "params": {"DIGITS": 2, "EXP": 1, "K": 3}}],
+                "quick": [{"name": "verifHarnessBoundSimplifier", "params": {"DIGITS": 2, "EXP": 1, "K": 2}},
+                          {"name": "verifHarnessBoundSimplifier", "params": {"DIGITS": 2, "EXP": 1, "K": 2, "INT": 1}}],
+                "thorough": [{"name": "verifHarnessBoundSimplifier", "params": {"DIGITS": 2, "EXP": 1, "K": 3}},
+                             {"name": "verifHarnessBoundSimplifier", "params": {"DIGITS": 2, "EXP": 1, "K": 3, "INT": 1}}],
             },
         },
         {
